@@ -38,7 +38,8 @@ func genC04(o *hx.Out, tier string) {
 			m := hx.RandMessage(r, proto, 2)
 			for _, v2 := range []bool{true, false} {
 				raw := mrw.Write(m, v2)
-				o.Add("encode", "ok "+hx.Hex(raw.Payload), "mwrite", gs, b2s(v2), hx.Value(m))
+				// rendered later: the payload handed out must still be what it was after other calls
+				o.AddLater("encode", func() string { return "ok " + hx.Hex(raw.Payload) }, "mwrite", gs, b2s(v2), hx.Value(m))
 				o.Add("roundtrip", implReadMsg(mrw, raw.Payload, v2), "mread", gs, b2s(v2), hx.Hex(raw.Payload))
 				if held != nil {
 					// the result of the previous Write, looked at again after this Write and this Read
